@@ -12,6 +12,7 @@ import (
 	"fmt"
 	"io"
 	"net"
+	"sync/atomic"
 	"time"
 
 	"compress/flate"
@@ -248,6 +249,11 @@ func (c *Conn) writeFrame(ctx context.Context, fin bool, flate bool, opcode opco
 		return 0, err
 	}
 	defer c.writeFrameMu.unlock()
+
+	// Nothing may follow a close frame, see RFC 6455 section 5.5.1.
+	if opcode != opClose && atomic.LoadInt32(&c.wroteClose) == 1 {
+		return 0, fmt.Errorf("failed to write frame: close frame already sent: %w", net.ErrClosed)
+	}
 
 	select {
 	case <-c.closed:
